@@ -12,6 +12,7 @@ import (
 type tailCall struct {
 	fn   *FuncV
 	args []Value
+	done func() // run when fn has returned, before the result is delivered
 }
 
 type intrinsic func(in *Interp, g *Goroutine, fn *ssa.Function, args []Value) (Value, *tailCall)
@@ -194,6 +195,15 @@ func init() {
 		for _, o := range in.gs {
 			in.raceJoinGoroutine(g, o)
 		}
+		return nil, nil
+	})
+	reg(vrtPath+"Preemptions", func(in *Interp, g *Goroutine, fn *ssa.Function, args []Value) (Value, *tailCall) {
+		in.preemptBound = in.concInt(args[0], "vrt.Preemptions")
+		in.preemptUsed = 0
+		return nil, nil
+	})
+	reg(vrtPath+"Yield", func(in *Interp, g *Goroutine, fn *ssa.Function, args []Value) (Value, *tailCall) {
+		in.preemptPoint(g, in.preemptBound > 0 && g.id >= 0)
 		return nil, nil
 	})
 	reg(vrtPath+"Tick", func(in *Interp, g *Goroutine, fn *ssa.Function, args []Value) (Value, *tailCall) {
@@ -405,27 +415,30 @@ func init() {
 	reg("(*sync.Once).Do", func(in *Interp, g *Goroutine, fn *ssa.Function, args []Value) (Value, *tailCall) {
 		p := args[0].(PtrV)
 		st, _ := p.obj.cells[p.off].(*Term)
+		// state: 0 not run, 2 f is running (other callers wait, as in the real sync.Once), 1 done
+		if st != nil && st.IsConst() && st.cv == 2 {
+			obj, off := p.obj, p.off
+			in.block(g, nil, "Once.Do", func() bool {
+				t, _ := obj.cells[off].(*Term)
+				return t == nil || t.cv != 2
+			})
+			return nil, nil
+		}
 		if st != nil && st.IsConst() && st.cv != 0 {
-			// conservative: everything the goroutine that ran (or is running) f has done so far
-			// happens before this return
-			if r, ok := in.race.sync[raceKey{p.obj, p.off, 3}]; ok && in.raceActive(g) {
-				for _, o := range in.gs {
-					if o.id == int(r.get(0)) {
-						in.raceJoinGoroutine(g, o)
-					}
-				}
-			}
+			// the completion of f happens before any Do returns
+			in.raceAcquire(g, raceKey{p.obj, p.off, 3})
 			return nil, nil
 		}
 		w := uint8(32)
 		if st != nil {
 			w = st.w
 		}
-		in.setCell(p.obj, p.off, in.tt.Const(w, 1))
-		if in.raceActive(g) {
-			in.race.sync[raceKey{p.obj, p.off, 3}] = vclock{int32(g.id)}
-		}
-		return nil, &tailCall{fn: args[1].(*FuncV)}
+		in.setCell(p.obj, p.off, in.tt.Const(w, 2))
+		obj, off := p.obj, p.off
+		return nil, &tailCall{fn: args[1].(*FuncV), done: func() {
+			in.raceRelease(in.cur, raceKey{obj, off, 3})
+			in.setCell(obj, off, in.tt.Const(w, 1))
+		}}
 	})
 	reg("(*sync.Pool).Get", func(in *Interp, g *Goroutine, fn *ssa.Function, args []Value) (Value, *tailCall) {
 		p := args[0].(PtrV)
@@ -1370,7 +1383,13 @@ func init() {
 // maybePreempt makes lock acquisitions scheduling points (when enabled by the harness and
 // while the schedule budget lasts): the goroutine may yield to another runnable one first.
 func (in *Interp) maybePreempt(g *Goroutine) bool {
-	if !in.preemptLocks || in.specDepth > 0 || in.schedUsed >= in.schedules || g.justYielded {
+	return in.preemptPoint(g, in.preemptLocks)
+}
+
+// preemptPoint is a place where the scheduler may switch away from g (a lock acquisition with
+// vrt.PreemptAtLocks, or an explicit vrt.Yield at a lower-layer boundary).
+func (in *Interp) preemptPoint(g *Goroutine, enabled bool) bool {
+	if !enabled || in.specDepth > 0 || in.syncDepth > 0 || (in.preemptBound == 0 && in.schedUsed >= in.schedules) || g.justYielded {
 		g.justYielded = false
 		return false
 	}
@@ -1383,7 +1402,7 @@ func (in *Interp) maybePreempt(g *Goroutine) bool {
 	if !others {
 		return false
 	}
-	if in.schedChoice(2) == 1 {
+	if in.preemptChoice() {
 		g.justYielded = true
 		g.yielded = true
 		in.block(g, nil, "yield", func() bool { return true })
